@@ -100,6 +100,8 @@ def run(rec, cfg):
         for t in odd_trees(rng):
             rec.arm("start:constructed")
             drive(t, 2)
+    if cfg.shard == 5 % cfg.nshards:
+        RC.wide_ints(rec, rules)
     for src, text, hints in RC.start_texts(cfg, rng, n, equations=0.25):
         if cfg.out_of_time():
             rec.truncated = True
